@@ -5,3 +5,33 @@ From PFL Require Import Spec.Cfg Model.CfgOps Proofs.CfgOps.
 Theorem C10_reverse : forall (Vr : Type) (G : cfg Vr) (w : list N), LangG (reverse_cfg G) w <-> LangG G (rev w).
 Proof. exact (@reverse_cfg_spec). Qed.
 Print Assumptions C10_reverse.
+
+(* substitute: the language is the substituted language, for every grammar and every substitution whose grammars have a start symbol *)
+From Coq Require Import NArith.
+From PFL Require Import Model.Cfg Proofs.CfgSubst Proofs.CfgTemplates.
+Theorem C10_substitute : forall (V0 V1 : Type) (G : cfg V0) (sigma : list (N * cfg V1)),
+  (forall a H, In (a, H) sigma -> g_start H <> None) ->
+  forall w, LangG (substitute G sigma) w <-> exists u, LangG G u /\ subst_rel sigma u w.
+Proof. exact (@substitute_lang). Qed.
+Print Assumptions C10_substitute.
+
+(* the four templates (t0, t1: the placeholder terminals "#0UNION#", "#1UNION#", ...); operands may share variables or be the same grammar *)
+Theorem C10_union : forall (V1 : Type) (t0 t1 : N) (G1 G2 : cfg V1), t0 <> t1 -> g_start G1 <> None -> g_start G2 <> None ->
+  forall w, LangG (union_cfg t0 t1 G1 G2) w <-> LangG G1 w \/ LangG G2 w.
+Proof. exact (@union_lang). Qed.
+Print Assumptions C10_union.
+
+Theorem C10_concatenate : forall (V1 : Type) (t0 t1 : N) (G1 G2 : cfg V1), t0 <> t1 -> g_start G1 <> None -> g_start G2 <> None ->
+  forall w, LangG (concat_cfg t0 t1 G1 G2) w <-> exists w1 w2, w = w1 ++ w2 /\ LangG G1 w1 /\ LangG G2 w2.
+Proof. exact (@concat_lang). Qed.
+Print Assumptions C10_concatenate.
+
+Theorem C10_closure : forall (V1 : Type) (t1 : N) (G1 : cfg V1), g_start G1 <> None ->
+  forall w, LangG (closure_cfg t1 G1) w <-> exists ws, w = concat ws /\ Forall (LangG G1) ws.
+Proof. exact (@closure_lang). Qed.
+Print Assumptions C10_closure.
+
+Theorem C10_positive_closure : forall (V1 : Type) (t1 : N) (G1 : cfg V1), g_start G1 <> None ->
+  forall w, LangG (pos_closure_cfg t1 G1) w <-> exists ws, ws <> nil /\ w = concat ws /\ Forall (LangG G1) ws.
+Proof. exact (@pos_closure_lang). Qed.
+Print Assumptions C10_positive_closure.
